@@ -390,3 +390,82 @@ func c16R5(c *Ctx, r *Report) {
 	r.OK(rule, "bigint.c", "call arguments scanned", "-", itoa(n)+" arguments")
 	r.Floor(rule, n, 200, "call arguments in bigint.c")
 }
+
+func init() {
+	lateInits = append(lateInits, func() {
+		props["C16"].Quick = append(props["C16"].Quick, c16R6, c16R7)
+		props["C11"].Quick = append(props["C11"].Quick, c16R6)
+		props["C16"].Explanation += " (R6) the constructor used to convert a 64-bit-or-smaller integer to a large one is chosen by the signedness of the source (zero-extension for unsigned, sign-extension for signed sources) for every source x target pair; (R7) no comparison in bigint.c is decided by the sign of a difference of limbs."
+	})
+}
+
+// C16.R6: small -> large integer conversion extends by the sign of the source.
+func c16R6(c *Ctx, r *Report) {
+	const rule = "C16.R6"
+	r.Describe(rule, "mir/gen.largeFromSmallFunc, evaluated over every integer source x large integer target: constructor family and 64-bit argument type follow the source's signedness, width follows the target")
+	fn := c.LookupFn(pkgMIRGen, "largeFromSmallFunc")
+	if !r.Anchor(rule, fn != nil, "mir/gen.largeFromSmallFunc") {
+		return
+	}
+	pe := newPEval(c)
+	srcs := []struct {
+		name     string
+		unsigned bool
+	}{{"i8", false}, {"i16", false}, {"i32", false}, {"i64", false}, {"u8", true}, {"u16", true}, {"u32", true}, {"u64", true}, {"byte", true}}
+	for _, tn := range largeInts {
+		for _, s := range srcs {
+			construct := fmt.Sprintf("%s -> %s", s.name, tn)
+			res, err := pe.Call(fn, []Val{kstr(tn), prim(s.name)})
+			if err != nil {
+				r.Fail(rule, fn.Name(), construct, c.pos(fn.Decl.Pos()), "undecidable: "+err.Error())
+				continue
+			}
+			name, _ := strOf(res[0])
+			argT, _ := res[1].(*AType)
+			okv, _ := res[2].(constant.Value)
+			fam, small := "i", "i64"
+			if s.unsigned {
+				fam, small = "u", "u64"
+			}
+			want := "ferret_" + fam + tn[1:] + "_from_" + small + "_ptr"
+			gotArg := ""
+			if argT != nil {
+				gotArg = argT.Name
+			}
+			r.Check(okv != nil && boolVal(okv) && name == want && gotArg == small, rule, fn.Name(), construct+" via "+want, c.pos(fn.Decl.Pos()),
+				fmt.Sprintf("%s is converted with %q (64-bit argument type %s), expected %q (%s): the value is extended with the wrong sign (u64 2^64-1 as i128 gives -1; i64 -5 as u128 gives 2^64-5)", construct, name, gotArg, want, small))
+		}
+	}
+	r.Exhaust[rule] = true
+}
+
+// C16.R7: no ordering decided by the sign of a limb difference.
+func c16R7(c *Ctx, r *Report) {
+	const rule = "C16.R7"
+	r.Describe(rule, "bigint.c: no cast of a limb-typed subtraction to a signed integer type (comparison by subtraction overflows when the operands differ by 2^(w-1) or more)")
+	cf := cLoad(c, r, rule, "runtime/core/bigint.c")
+	if cf == nil {
+		return
+	}
+	signed := func(t string) bool {
+		switch t {
+		case "int", "long", "long long", "int64_t", "int32_t", "ferret_slimb_t", "ssize_t", "ptrdiff_t", "__int128":
+			return true
+		}
+		return false
+	}
+	n := 0
+	for _, name := range cf.Order {
+		cf.Funcs[name].Walk(func(x *CNode) bool {
+			if (x.Kind == "CStyleCastExpr" || x.Kind == "ImplicitCastExpr") && x.CastKind == "IntegralCast" && signed(x.Type) && len(x.Inner) == 1 {
+				n++
+				in := x.Inner[0].strip()
+				if in != nil && in.Kind == "BinaryOperator" && in.Opcode == "-" && isLimbType(in.Type) {
+					r.Fail(rule, "bigint.c:"+name, "signed view of "+in.Src(), c.cpos(cf, x), "the sign of a wrapped limb difference is used as an ordering: for operands whose top limbs differ by 2^63 or more (e.g. 1e38 vs -1e38) the larger value is reported as the smaller")
+				}
+			}
+			return true
+		})
+	}
+	r.OK(rule, "bigint.c", "integral casts to signed types scanned", "-", itoa(n)+" casts")
+}
